@@ -105,7 +105,8 @@ theorem counters_set {procs : List Process} {cs : List Counter} {i : Nat} {old n
   · exact ⟨pr, by rw [List.getElem?_set_ne he]; exact hpr, hpid⟩
 
 theorem TInv.init : TInv P.init where
-  libs := ⟨fun _ hx => (nomatch hx), fun _ hx => (nomatch hx), fun _ hx => (nomatch hx)⟩
+  libs := ⟨fun _ hx => (nomatch hx), fun _ hx => (nomatch hx), fun _ hx => (nomatch hx),
+    by intro i h hi; simp [P.init] at hi⟩
   gstr := ⟨fun _ hx => (nomatch hx), fun _ hx => (nomatch hx)⟩
   threads := fun _ hx => nomatch hx
   subsPos := by
